@@ -355,7 +355,7 @@ func makePlan(rng *rand.Rand, style string) ([]pubStep, int, int) {
 // TestPublicAddressConfigurations: seeded histories over address plans of every style; every history asks for
 // more blocks than one address can carry.
 func TestPublicAddressConfigurations(t *testing.T) {
-	n := run.Pick(700, 8000)
+	n := run.Pick(700, 5000)
 	ch := make(chan []*seqCase, 64)
 	go func() {
 		defer close(ch)
